@@ -59,6 +59,10 @@ TABLE = {
    text='attacks on a real Server/AsyncServer: one offender sends 30-120 generated frames (grammar-based mutations of valid packets, raw random text/bytes, mutated msgpack maps, a quarter of them through engine.io\'s own packet decoding) interleaved with well-formed bystander events, broadcasts and pending callbacks; monitors: no handler invocation or frame for a bystander during offender input, bystander rooms/session/connection unchanged, handler arguments derivable from the offending frame, post-attack probes (bystander callbacks complete, fresh client served), per-frame allocation bound with tracemalloc under RLIMIT_AS',
    note='engine.io contains the exceptions raised by the message callback (trusted); the offender\'s own connection may be left unusable; allocation bound 400 B per input byte + 600 kB',
    tech='runtime monitoring: grammar-based hostile workload + bystander trace/state monitors + allocation monitor (tracemalloc)'),
+ 'C15': dict(cat='fault_enumeration',
+   text='(a) a real PubSubManager/AsyncPubSubManager with an in-memory backend and local clients; its real listener thread/task is fed sequences of bad channel messages (undecodable bytes, pickles/JSON of non-dicts incl. strings and lists containing "method", dicts with missing/surplus/wrong-typed fields, unknown methods, own-host echoes of every method, callback messages for other hosts/unknown ids; as bytes, text or dict), a quarter combined with an injected fault (server operation raises, send raises, the listen iterator raises and is restarted); after each one a sentinel emit from another host must reach its local client exactly once and echoes/foreign callbacks must have no effect; (b) the bundled Redis backends driven with a fake redis client whose connections/subscriptions fail on schedule: every broker message yielded once, retry sleeps equal to the 1,2,4..60 schedule',
+   note='injected faults are Exception subclasses; undecodable bytes start with a non-opcode byte because unpickling hostile pickle programs is outside what python-socketio can contain; redis is a harness-provided fake module',
+   tech='runtime monitoring: fault injection + sentinel exactly-once oracle on the real listener loop'),
 }
 # filled in as checks are built; see bottom of file for the not-built reason
 
